@@ -265,6 +265,18 @@ class CoroutineProcessor(Processor):
                 self._promises[gen].value = exception.value
                 del self._promises[gen]
                 continue        # Do not rotate if last item was popped
+            except BaseException:
+                # The coroutine raised (eg. Quit, SwitchWorld): it is
+                # finished. Forget it and leave the queue at a frame
+                # boundary (sentinel first), so that the next frame
+                # advances every coroutine as usual.
+                gen = self._active_queue.popleft()
+                del self._generators[gen]
+                self._kill_queue.discard(gen)
+                del self._promises[gen]
+                while self._active_queue[0] is not None:
+                    self._active_queue.rotate(-1)
+                raise
 
             # Put in wait queue if requested
             if wait is not None and wait > 0:
